@@ -188,7 +188,7 @@ fn catalogue() -> Vec<(&'static str, Vec<&'static str>, u64)> {
         ("DSTSimulation", vec!["new", "calm", "chaos"], 400),
         ("RedisDSTSimulation", vec!["zipfian", "uniform", "zipfian+chaos-faults"], 120),
         ("Simulation", vec!["reliable", "drop30", "partition"], 60),
-        ("SimulationHarness", vec!["script", "script+buggify", "script+eviction", "script+lua-random"], 200),
+        ("SimulationHarness", vec!["script", "script+buggify", "script+eviction", "script+lua-random", "script+maxmemory"], 200),
         ("SimulationHarness.set-pick-script", vec!["spop+randomkey"], 200),
         ("SimulatedConnection", vec!["batched", "unbatched", "partial-reads", "partial-arrivals"], 120),
         ("PipelineSimulator", vec!["default", "odd-sizes"], 1),
@@ -634,6 +634,11 @@ fn run_case(h: &str, p: &str, s: u64, ops: u64) -> Dump {
                 sc.extend(extra);
                 sc.sort_by_key(|x| x.0);
             }
+            if p == "script+maxmemory" {
+                // a memory limit is part of the simulated server's configuration; what it is compared with must be the simulated
+                // data set, not anything of the host process (see the host-memory relation in one_case)
+                sc.insert(0, (0, 0, Command::ConfigSet("maxmemory".into(), (400u64 << 20).to_string())));
+            }
             let mut b = ScenarioBuilder::new(s).with_start_epoch(1_700_000_000);
             if p == "script+buggify" {
                 b = b.with_buggify(0.3);
@@ -969,6 +974,47 @@ fn eval_case(rep: &mut Report, c: &Case, reruns: usize, children: usize, probes_
                 }
             }
             None => rep.inconclusive(format!("runner thread died for the paced relation of {:?}", c.json())),
+        }
+    }
+    // host memory (the maxmemory preset, a quarter of the seeds): the same run before and after the process has grown by 600 MiB
+    if c.p == "script+maxmemory" && c.s % 4 == 0 {
+        let rss_mib = std::fs::read_to_string("/proc/self/statm").ok().and_then(|t| t.split_whitespace().nth(1).and_then(|x| x.parse::<u64>().ok())).map(|pages| pages * 4096 >> 20).unwrap_or(u64::MAX);
+        if rss_mib < 300 {
+            let (h, p, s, ops) = (c.h.clone(), c.p.clone(), c.s, c.ops);
+            let pair = std::thread::Builder::new()
+                .stack_size(32 << 20)
+                .spawn(move || {
+                    let a = run_case(&h, &p, s, ops).render();
+                    let mut ballast = vec![0u8; 600 << 20];
+                    for i in (0..ballast.len()).step_by(4096) {
+                        ballast[i] = 1;
+                    }
+                    let b = run_case(&h, &p, s, ops).render();
+                    std::hint::black_box(&ballast);
+                    drop(ballast);
+                    (a, b)
+                })
+                .expect("spawn")
+                .join()
+                .ok();
+            match pair {
+                Some((small, big)) => {
+                    rep.count("runs_with_grown_host_process");
+                    if small != big {
+                        let at = small.bytes().zip(big.bytes()).position(|(a, b)| a != b).unwrap_or(small.len().min(big.len()));
+                        let mut w = c.json();
+                        w["relation"] = json!("host-memory");
+                        rep.violation(
+                            format!("C20|{}|result-depends-on-host-process-memory", c.h),
+                            format!("preset {} seed {}: the same run differs after the host process has grown by 600 MiB; first difference at byte {}: ...{} | ...{}", c.p, c.s, at, &small[at.saturating_sub(60)..(at + 60).min(small.len())], &big[at.saturating_sub(60)..(at + 60).min(big.len())]),
+                            w,
+                        );
+                    }
+                }
+                None => rep.inconclusive(format!("runner thread died for the host-memory relation of {:?}", c.json())),
+            }
+        } else {
+            rep.count("host_memory_relation_skipped_process_already_large");
         }
     }
     match &after_other {
